@@ -231,6 +231,7 @@ func init() {
 		ID:    "C18",
 		Level: "exploration",
 		Rule: "seeded cluster runs with transaction bursts (so rounds hold several snapshots), reordering/duplication/partitions (nodes receive a round's snapshots in different orders) and crash/restart (start-up validator and final-round reload recompute the hashes); every closed round of every chain on every node is recomputed independently and compared with the stored round record, the in-memory final round and the other nodes; " +
+			"at 12 checkpoints per run and at the end the hash the live node would compute when closing its current round now is compared with the commitment over the snapshots that round holds now; " +
 			"non-trivial = at least one closed round with more than one snapshot; distinct = canonical-log digests. Not reachable: equal timestamps inside one round (the live path rejects them), so the (timestamp,hash) tie-break is not exercised.",
 		Components: clusterComponents,
 		Assume:     clusterAssume,
